@@ -136,7 +136,7 @@ def run_r12c(chk, F):
     return bounds_audit(chk, F, "R12c", "C12", CA, "the analysis crate", "the analysis panics")
 
 
-def bounds_audit(chk, F, rule, prop, crate, what, effect):
+def bounds_audit(chk, F, rule, prop, crate, what, effect, only=None):
     chk.rule(rule, "every index / slice / positional Vec or String operation in %s is in bounds by a derived fact "
                    "(comparison with len, iteration variable, non-empty test, find position) or by an audited entry" % what)
     table = panicsurface.load_table()
@@ -144,6 +144,8 @@ def bounds_audit(chk, F, rule, prop, crate, what, effect):
     per_kind = {}
     for bid in sorted(F.bodies):
         b = F.bodies[bid]
+        if only is not None and bid not in only:
+            continue
         if b.crate != crate or "::test" in bid or "/test" in b.file or b.file.endswith("_test.rs") or b.kind in ("const", "static", "promoted"):
             continue
         B = None
@@ -174,3 +176,47 @@ def bounds_audit(chk, F, rule, prop, crate, what, effect):
     chk.unit("sites discharged by the audited table", aud)
     chk.note("sites per kind: %s" % sorted(per_kind.items()))
     return n, rec, aud
+
+
+def uint_sub_audit(chk, F, rule, prop, crate, what, effect, only=None):
+    """every unsigned subtraction (usize/u32/u64) of the given bodies has a dominating `minuend >= subtrahend` fact or an audited entry"""
+    from rules import c25c
+    table = panicsurface.load_table()
+    nsub = rs = au = 0
+    for bid in sorted(F.bodies):
+        b = F.bodies[bid]
+        if only is not None and bid not in only:
+            continue
+        if b.crate != crate or "::test" in bid or "/test" in b.file or b.kind in ("const", "static", "promoted"):
+            continue
+        B = None
+        k = 0
+        for bi, blk in enumerate(b.blocks):
+            if blk[0]:
+                continue
+            for st in blk[1]:
+                if not (st[0] == "a" and st[2][0] == "bin" and st[2][1] in ("Sub", "SubWithOverflow")):
+                    continue
+                t = b.local_ty_str(st[1][0]) if len(st[1]) == 1 else ""
+                if not (t in ("usize", "u32", "u64") or t.startswith(("(usize", "(u32", "(u64"))):
+                    continue
+                k += 1
+                nsub += 1
+                key = "%s|%s|uint-sub#%d" % (prop, bid, k)
+                if B is None:
+                    B = bounds.Bounds(F, b)
+                loc = b.loc(st[3] if len(st) > 3 else None)
+                why = c25c._sub_ok(B, bi, st[2][2], st[2][3])
+                if why:
+                    rs += 1
+                    chk.ok(rule, key, {"rule": rule, "site": loc, "kind": "uint-sub", "verdict": "guard recognised", "reason": why})
+                elif key in table:
+                    au += 1
+                    chk.ok(rule, key, {"rule": rule, "site": loc, "kind": "uint-sub", "verdict": "audited", "reason": table[key]})
+                else:
+                    chk.violation(rule, key, "unsigned subtraction without a recognised guard (minuend >= subtrahend) or an audited entry in %s: "
+                                             "for some input it underflows -- a panic in debug builds, a wrapped length/offset (and an "
+                                             "out-of-range index or slice) in release builds; %s" % (what, effect), loc, witness={"kind": "uint-sub"})
+    chk.unit("unsigned subtractions discharged by a recognised guard", rs)
+    chk.unit("unsigned subtractions discharged by the audited table", au)
+    return nsub, rs, au
